@@ -354,7 +354,8 @@ def run_check(pid, spec, args, seed, work, t0):
             if harness_viol:
                 # a harness-recorded violation must fail the test; treat as violation anyway
                 for tname, rp, summ in harness_viol:
-                    violations.append((rp or save_replay(replay_dir, pid, p, seed, tname, summ), summ))
+                    if relevant(p, summ):
+                        violations.append((rp or save_replay(replay_dir, pid, p, seed, tname, summ), summ))
             continue
         if "DRIVER-TIMEOUT" in out or "panic: test timed out" in out:
             inconclusive.append("%s/%d: timed out after %.0fs" % (jn, p.shard, p.wall))
@@ -366,7 +367,8 @@ def run_check(pid, spec, args, seed, work, t0):
             continue
         if harness_viol:
             for tname, rp, summ in harness_viol[:3]:
-                violations.append((rp or save_replay(replay_dir, pid, p, seed, tname, summ), summ))
+                if relevant(p, summ):
+                    violations.append((rp or save_replay(replay_dir, pid, p, seed, tname, summ), summ))
             continue
         if "flaky test, can not reproduce" in out and not args.replay:
             # rapid could not reproduce its own failure: schedule dependent. Keep the log, do not call it a verdict.
@@ -376,7 +378,8 @@ def run_check(pid, spec, args, seed, work, t0):
         m = re.search(r"--- FAIL: (\S+)", out)
         tname = m.group(1) if m else p.job["run"]
         summ = first_failure_line(out)
-        violations.append((save_replay(replay_dir, pid, p, seed, tname, summ), summ))
+        if relevant(p, summ):
+            violations.append((save_replay(replay_dir, pid, p, seed, tname, summ), summ))
 
     # executed-vs-requested for rapid jobs
     for p in procs:
@@ -457,6 +460,16 @@ def first_failure_line(out):
         if "_test.go:" in line:
             return line.strip()[:600]
     return tail(out, 300).replace("\n", " | ")
+
+
+def relevant(p, summ):
+    """A job shared with another property's check may carry "only": a regex that selects the violations which are
+    violations of *this* property; what it finds beyond that belongs to the other property's check and is only logged here."""
+    rx = p.job.get("only")
+    if not rx or re.search(rx, summ or ""):
+        return True
+    log("note: job %s reported something that is not a violation of this property (left to the owning check): %s" % (p.job["name"], (summ or "")[:300]))
+    return False
 
 
 def save_log(work, replay_dir, p, kind):
